@@ -27,7 +27,10 @@ import PMV.Core.Arr
     qMul qConj qNormSq qRecip                      polymath/quaternion.py:160-174, 612-640, 673-686
     qToMatrix3                                     quaternion.py:183-244
     fromParts toParts                              quaternion.py:59-101, 122-126
-    qEulerIJK, qFromEuler                          quaternion.py:734-805
+    qEulerIJK, qFromEulerRaw, qScale, qFromEuler   quaternion.py:734-805
+    argmax3, fromMatrix3, fromMatrix3Rsq           quaternion.py:439-482
+    atan2SC, toEuler                               matrix3.py:522-589
+    crossV, ucross, twovecAssemble, twovec         matrix3.py:59-95, vector.py:448-458
 -/
 namespace PMV.Algebra
 open PMV
@@ -524,7 +527,7 @@ def qEulerIJK (cv : Conv) : Nat × Nat × Nat :=
 /-- `Quaternion.from_euler` on one element (quaternion.py:763-803); the `SC` arguments are
     sine and cosine of the HALF angles as passed; `sign` is the sign normalisation of the scalar
     part, `np.where(q0 < 0, -1, 1)` (repaired form: `np.sign` annihilated q when q0 = 0) -/
-def qFromEuler (sign : K → K) (cv : Conv) (hi hj hk : SC K) (q0 : Q4 K) : Q4 K :=
+def qFromEulerRaw (cv : Conv) (hi hj hk : SC K) (q0 : Q4 K) : Q4 K :=
   let (i, j, k) := qEulerIJK cv
   let (hi, hk) := if cv.frame ≠ 0 then (hk, hi) else (hi, hk)
   let hj := if cv.parity ≠ 0 then hj.neg else hj
@@ -542,10 +545,115 @@ def qFromEuler (sign : K → K) (cv : Conv) (hi hj hk : SC K) (q0 : Q4 K) : Q4 K
     else
       (((q0.setAt 0 (cj * cc + sj * ss)).setAt i (cj * sc - sj * cs)).setAt j
         (cj * ss + sj * cc)).setAt k (cj * cs - sj * sc)
-  let q := if cv.parity ≠ 0 then q.setAt j (q.get j * (-1)) else q
-  let sg := sign q.s
-  ⟨q.s * sg, q.x * sg, q.y * sg, q.z * sg⟩
+  if cv.parity ≠ 0 then q.setAt j (q.get j * (-1)) else q
+
+/-- multiplication of all four components by a scalar (`q *= sign[..., np.newaxis]`) -/
+def qScale (c : K) (q : Q4 K) : Q4 K := ⟨q.s * c, q.x * c, q.y * c, q.z * c⟩
+
+/-- `Quaternion.from_euler`: the four assignments and the parity flip (`qFromEulerRaw`, quaternion.py:763-801)
+    followed by the sign normalisation of line 803 -/
+def qFromEuler (sign : K → K) (cv : Conv) (hi hj hk : SC K) (q0 : Q4 K) : Q4 K :=
+  let q := qFromEulerRaw cv hi hj hk q0
+  qScale (sign q.s) q
+
+/-- `np.argmax` of the three diagonal entries: the FIRST index holding the maximum; `le a b` is `a <= b` -/
+def argmax3 (le : K → K → Bool) (d0 d1 d2 : K) : Nat :=
+  if le d1 d0 && le d2 d0 then 0 else if le d2 d1 then 1 else 2
+
+/-- `Quaternion.from_matrix3` on one element (quaternion.py:439-482, repaired form): largest diagonal
+    entry i (j, k follow cyclically), `r_sq = 1 + 2*max - trace`, `r` = what `np.sqrt(r_sq)` returned,
+    `s = 0.5 / r` with r = 0 replaced by 1, the four assignments into the `np.empty` buffer `q0`, scaling
+    by `s`; an element with r = 0 (only the identity rotation) becomes the identity quaternion. -/
+def fromMatrix3 [Div K] [DecidableEq K] (le : K → K → Bool) (r : K) (m : Mat K) (q0 : Q4 K) : Q4 K :=
+  let trace := m 0 0 + m 1 1 + m 2 2
+  let i := argmax3 le (m 0 0) (m 1 1) (m 2 2)
+  let maxd := m i i
+  let r_sq := 1 + (1 + 1) * maxd - trace
+  let zero := decide (r = 0)
+  let s := (1 / (1 + 1)) / (if zero then 1 else r)
+  let j := (i + 1) % 3
+  let k := (i + 2) % 3
+  let u := (((q0.setAt 0 (m k j - m j k)).setAt (i + 1) r_sq).setAt (j + 1) (m i j + m j i)).setAt (k + 1)
+            (m i k + m k i)
+  if zero then ⟨1, 0, 0, 0⟩ else qScale s u
+
+/-- the argument of the square root in `from_matrix3` -/
+def fromMatrix3Rsq (le : K → K → Bool) (m : Mat K) : K :=
+  1 + (1 + 1) * m (argmax3 le (m 0 0) (m 1 1) (m 2 2)) (argmax3 le (m 0 0) (m 1 1) (m 2 2)) - (m 0 0 + m 1 1 + m 2 2)
 
 end quat
+
+/-! ## to_euler (matrix3.py:522-589): angles are represented by their sine and cosine -/
+
+section toeuler
+variable {K : Type} [Add K] [Mul K] [Sub K] [Neg K] [Zero K] [One K] [Div K] [DecidableEq K]
+
+/-- `np.arctan2(y, x)` as the pair (sin, cos) of the returned angle: the point (x, y) normalised by
+    `sqrt(x² + y²)`; `arctan2(0, 0) = 0`. `sqrt` is `np.sqrt`. Reducing the angle mod 2π later does not
+    change the pair. -/
+def atan2SC (sqrt : K → K) (y x : K) : SC K :=
+  let h := sqrt (x * x + y * y)
+  if h = 0 then ⟨0, 1⟩ else ⟨y / h, x / h⟩
+
+/-- `Matrix3.to_euler` on one element (matrix3.py:551-589): `small v` is the test `v <= EPSILON` that selects
+    the gimbal-lock branch; the result is (ax, ay, az) after the parity negation and the frame swap. -/
+def toEuler (sqrt : K → K) (small : K → Bool) (cv : Conv) (m : Mat K) : SC K × SC K × SC K :=
+  let (i, j, k) := eulerIJK cv
+  let (ax, ay, az) :=
+    if cv.repetition ≠ 0 then
+      let sy := sqrt (m i j * m i j + m i k * m i k)
+      if small sy then
+        (atan2SC sqrt (-(m j k)) (m j j), atan2SC sqrt sy (m i i), (⟨0, 1⟩ : SC K))
+      else
+        (atan2SC sqrt (m i j) (m i k), atan2SC sqrt sy (m i i), atan2SC sqrt (m j i) (-(m k i)))
+    else
+      let cy := sqrt (m i i * m i i + m j i * m j i)
+      if small cy then
+        (atan2SC sqrt (-(m j k)) (m j j), atan2SC sqrt (-(m k i)) cy, (⟨0, 1⟩ : SC K))
+      else
+        (atan2SC sqrt (m k j) (m k k), atan2SC sqrt (-(m k i)) cy, atan2SC sqrt (m j i) (m i i))
+  let (ax, ay, az) := if cv.parity ≠ 0 then (ax.neg, ay.neg, az.neg) else (ax, ay, az)
+  let (ax, az) := if cv.frame ≠ 0 then (az, ax) else (ax, az)
+  (ax, ay, az)
+
+end toeuler
+
+/-! ## twovec (matrix3.py:59-133) -/
+
+section twovec
+variable {K : Type} [Add K] [Mul K] [Sub K] [Neg K] [Zero K] [One K] [Div K] [DecidableEq K]
+
+/-- `cross_3x3` on two plain 3-vectors -/
+def crossV (a b : Nat → K) : Nat → K := fun c =>
+  match c with
+  | 0 => a 1 * b 2 - a 2 * b 1
+  | 1 => a 2 * b 0 - a 0 * b 2
+  | _ => a 0 * b 1 - a 1 * b 0
+
+/-- `Vector.ucross` (vector.py:448-458): `self.cross(arg).unit()`; `sqrt` is `np.sqrt` -/
+def ucross (sqrt : K → K) (a b : VecE K) : VecE K :=
+  let c : VecE K := ⟨3, crossV a.get b.get, a.m || b.m⟩
+  unit c (sqrt (vdot 3 c.get c.get))
+
+/-- the three row assignments `array[...,axis1,:] = unit1; array[...,axis2,:] = unit2; array[...,axis3,:] = unit3`
+    into the `np.empty` buffer `m0` (later assignments win) -/
+def twovecAssemble (axis1 axis2 : Nat) (u1 u2 u3 : Nat → K) (m0 : Mat K) : Mat K :=
+  let axis3 := 3 - axis1 - axis2
+  fun r c => if r = axis3 then u3 c else if r = axis2 then u2 c else if r = axis1 then u1 c else m0 r c
+
+/-- `Matrix3.twovec(vector1, axis1, vector2, axis2)` on one element (matrix3.py:71-95, repaired form: the masks
+    of the derived rows are carried). Returns (values, mask). -/
+def twovec (sqrt : K → K) (v1 v2 : VecE K) (axis1 axis2 : Nat) (m0 : Mat K) : Mat K × Bool :=
+  let unit1 := unit v1 (sqrt (vdot 3 v1.get v1.get))
+  let (unit2, unit3) :=
+    if (3 + axis2 - axis1) % 3 = 1 then
+      let unit3 := ucross sqrt unit1 v2
+      (ucross sqrt unit3 unit1, unit3)
+    else
+      let unit3 := ucross sqrt v2 unit1
+      (ucross sqrt unit1 unit3, unit3)
+  (twovecAssemble axis1 axis2 unit1.get unit2.get unit3.get m0, unit1.m || v2.m || unit2.m || unit3.m)
+
+end twovec
 
 end PMV.Algebra
